@@ -9,6 +9,12 @@ def run(rep, work, rng, tier):
     shared = work.sub('shared')
     n = 150 if tier == 'quick' else 3000
     cases = []; kinds = {}
+    import shutil
+    for f in ('str1d.c3d', 'charscalar.c3d', 'sparse.c3d'):
+        shutil.copy(os.path.join(harness.VERIF, 'corpus', 'files', f), shared)
+        cid = 'k_' + f.split('.')[0]
+        cases.append((cid, ['loadx 0 ' + f, 'snap 0', 'save 0 %s_a.c3d' % cid, 'fsum %s_a.c3d' % cid, 'snap 0', 'save 0 %s_b.c3d' % cid, 'fsum %s_b.c3d' % cid, 'snap 0', 'save 0 %s_c.c3d' % cid, 'fsum %s_c.c3d' % cid]))
+        kinds['loaded-file-with-padded-1d-string'] = kinds.get('loaded-file-with-padded-1d-string', 0) + 1
     for i in range(n):
         r = rng.random()
         if r < 0.45:
